@@ -437,6 +437,9 @@ func (s *sg) avoided(key string) bool {
 	if ok, isOK := tbl["+"+key]; isOK && ok == "" { // explicit exception to a wildcard
 		bad = false
 	}
+	if bad && off(class) {
+		bad = false
+	}
 	if bad {
 		s.r.Exclude(class)
 	}
@@ -588,6 +591,10 @@ func (s *sg) constBool(d int) *Expr {
 // the formatter directly after '=', where the lexer reads "//" as an empty regex: such
 // comment positions are not generated (counted when comments are enabled and the class applies).
 func (s *sg) constRHS(e *Expr) {
+	if off(classK7) {
+		s.o.expr(e)
+		return
+	}
 	applies := false
 	x := e
 	for x != nil && x.K == "bin" && x.P == 0 {
@@ -615,7 +622,7 @@ func (s *sg) constRHS(e *Expr) {
 		x = x.A[0]
 	}
 	if applies && s.o.comments && s.r != nil {
-		s.r.Exclude("K7 comment positions in a var declaration's constant expression that the formatter prints directly after '=' (before a - AND OR operator on the left spine, inside the operand of a leading unary operator)")
+		s.r.Exclude(classK7)
 	}
 	s.o.expr(e)
 }
@@ -1222,11 +1229,12 @@ func genScript(r *kit.Rec, t *rapid.T, law string) ScriptCase {
 		noise, comments = 0, rapid.IntRange(0, 3).Draw(t, "comments") == 0
 	}
 	s := &sg{r: r, t: t, o: newOut(t, noise, comments), vars: map[string][]string{}, law: law}
+	s.o.exclude = r.Exclude
 	s.edge = rapid.SampledFrom([]string{"stream", "stream", "batch"}).Draw(t, "edge")
 	if rapid.IntRange(0, 9).Draw(t, "dbrp") == 0 {
 		s.o.emit(tk{s: "dbrp", cls: "var"})
 		db := rapid.SampledFrom([]string{"telegraf", "my db", "d.b", `q"db`}).Draw(t, "dbrpDB")
-		if strings.Contains(db, `"`) {
+		if strings.Contains(db, `"`) && !off(classK9) {
 			// K9: the formatter does not escape a double quote in a dbrp statement
 			r.Exclude(classK9)
 			db = "qdb"
